@@ -413,7 +413,7 @@ func init() {
 			{Name: "filldrain", QShards: 2, TShards: 6, Run: c15FillDrain},
 			{Name: "families", QShards: 2, TShards: 6, Run: c15Families},
 			{Name: "nested", StallSec: 60, Run: c15Nested},
-			{Name: "opcounts", QShards: 3, TShards: 6, Run: c15OpCounts},
+			{Name: "opcounts", QShards: 9, TShards: 12, Run: c15OpCounts},
 			{Name: "jsonhistory", TShards: 4, Run: c15JSONHistory},
 		},
 	})
@@ -1090,13 +1090,18 @@ func c15Nested(c *Ctx) {
 // valid again after exactly that many invalidations. The model is compared at
 // the end and at the touch.
 func c15OpCounts(c *Ctx) {
-	counts := []int{255, 256, 257, 65535, 65536, 65537}
+	// (… and 2^20: a maintenance step every million operations — compaction, rehashing — runs in the middle of one)
+	counts := []int{255, 256, 257, 65535, 65536, 65537, 1<<20 - 1, 1 << 20, 1<<20 + 1}
 	kinds := []string{"successful deletes", "adds", "deletes that find nothing", "successful deletes, the long key among them"}
 	idx := int64(0)
 	for _, p := range counts {
 		for kt := 0; kt < 4*len(kinds); kt++ {
 			ki, ti := kt/4, kt%4
 			kind := kinds[ki]
+			if p > 1<<19 && !(kt == 0 || kt == 2 || kt == 13 || c.Thorough && (ki == 0 || ki == 3)) {
+				idx++
+				continue
+			}
 			c.Case(idx, func(k *K) {
 				r := k.Rand()
 				long := "contig/" + string(randSeq(r, []byte("ACGT"), 20+r.IntN(30)))
